@@ -23,10 +23,10 @@ theorem cinv_init (cfg : Cfg) : CInv (init cfg) := by
     cases t with
     | zero => simp at h; exact ⟨rfl, h.symm⟩
     | succ k => simp at h
-  refine ⟨?_, ⟨by simp [init], by simp [init], by simp [init]⟩, ?_, ?_, ?_, ⟨_, _, rfl⟩, ?_, noRs_init cfg⟩
+  refine ⟨?_, ⟨by simp [init], by simp [init], by simp [init], by simp [init]⟩, ?_, ?_, ?_, ⟨_, _, rfl⟩, ?_, noRs_init cfg⟩
   · intro t pc r h
     have := (h1 t _ h).2; injection this with e1 _; rw [e1]
-    exact ⟨by simp [ownsPc, seqPc, qPc], by simp [qPc], fun _ => ⟨rfl, rfl⟩⟩
+    exact ⟨by simp [ownsPc, seqPc, qPc], by simp [qPc], fun _ => ⟨rfl, rfl⟩, by simp [pollEp]⟩
   · intro t t' pc pc' r r' h h' _ _; rw [(h1 t _ h).1, (h1 t' _ h').1]
   · intro t pc r h _ t' x ne hx; exact absurd ((h1 t' _ hx).1.trans (h1 t _ h).1.symm) ne
   · intro t pc r h _; exact (h1 t _ h).1
@@ -35,7 +35,7 @@ theorem cinv_init (cfg : Cfg) : CInv (init cfg) := by
 theorem fresh_main_cok (sh : Shared) (pc : MPc) (r : MRegs) (h : isFresh (.main pc r) = true) :
     COk sh pc ∧ ownsPc pc = false ∧ ctorPc pc = false := by
   cases pc <;> simp [isFresh] at h
-  exact ⟨⟨by simp [ownsPc, seqPc, qPc], by simp [qPc], by simp [ctorPc]⟩, by simp [ownsPc, seqPc, qPc], by simp [ctorPc]⟩
+  exact ⟨⟨by simp [ownsPc, seqPc, qPc], by simp [qPc], by simp [ctorPc], by simp [pollEp]⟩, by simp [ownsPc, seqPc, qPc], by simp [ctorPc]⟩
 
 theorem transM_ctor_only (cfg : Cfg) (sh : Shared) (n t : Nat) (pc : MPc) (r : MRegs) (alt : Nat) (h : ctorPc pc = true) (nt : Thread)
     (hs : (transM cfg sh n t pc r alt).2.2 = .spawn nt) : nt = newWorker := by
@@ -103,7 +103,7 @@ theorem cinv_step (cfg : Cfg) (hdet : cfg.detached = false) (hr : cfg.allowResta
     cases th with
     | worker w =>
       cases w <;> simp [isAsleep] at ha
-      exact worker_step t .asleep (.woken b) s.sh hget ⟨rfl, rfl, rfl, rfl⟩
+      exact worker_step t .asleep (.woken b) s.sh hget ⟨rfl, rfl, rfl, rfl, rfl⟩
     | main pc r => simp [isAsleep] at ha
     | sub x => simp [isAsleep] at ha
   · intro t th to late hget hw _
@@ -169,7 +169,8 @@ theorem cinv_step (cfg : Cfg) (hdet : cfg.detached = false) (hr : cfg.allowResta
         rcases old_main j pcx rx ne hj with ho | ⟨hf, _⟩
         · have hc := h.cok j pcx rx ho
           have hnc := other_not_ctor j pcx rx ne ho
-          exact ⟨⟨fun e => cs.monoS (hc.own e), fun e => cs.monoQ (hc.q e), by rw [hnc]; intro e; cases e⟩, fun _ => ho, hnc⟩
+          exact ⟨⟨fun e => cs.monoS (hc.own e), fun e => cs.monoQ (hc.q e), (by rw [hnc]; intro e; cases e),
+            fun e he => ⟨(hc.ep e he).1, cs.monoS (hc.ep e he).2⟩⟩, fun _ => ho, hnc⟩
         · have := fresh_main_cok (transM cfg s.sh s.thr.length t pc r alt).1 pcx rx hf
           exact ⟨this.1, (by rw [this.2.1]; intro e; cases e), this.2.2⟩
       refine ⟨?_, cs.gok, ?_, ?_, ?_, ?_, ?_, hnors⟩
